@@ -288,6 +288,19 @@ def run(ctx: Ctx) -> None:
                     what="calls in argument position are not part of the key of the kept call that receives their values")
     rep.floor("C01.R13", n13, 1)
 
+    from .common import kinds_not_confused
+    rep.rule("C01.R15", "as C14.R12: names, canonical paths, store paths and signatures are not used in place of one another in the analysis (mypy): the memo of "
+                        "variable hashes is keyed by the canonical path of the variable")
+    n15 = kinds_not_confused(ctx, "C01.R15", ("dds.introspect", "dds._introspect_indirect", "dds._retrieve_objects", "dds._eval_ctx", "dds._api", "dds.structures_utils"),
+                             "a variable of one accepted module is given the hash of a same-named variable of another: editing it changes no signature and the stale result is served")
+    rep.floor("C01.R15", n15, 3)
+
+    from .c17 import codec_duals
+    rep.rule("C01.R16", "as C17.R4: the value served from the store equals the one the function returned: serialize_into / deserialize_from of every codec are duals "
+                        "(a str result read back in text mode comes back with its '\\r' translated: the second call differs from plain execution)")
+    n16 = codec_duals(ctx, "C01.R16", "C01.R16")
+    rep.floor("C01.R16", n16, 4)
+
     # ---- R11 / R12 --------------------------------------------------------------------------------------------------------
     rep.rule("C01.R11", "every literal list of (constant key, value) pairs handed to the order-insensitive combiner holds pairwise different values, and every hash "
                         "computed in a function of the introspection is used (a component written twice means another one is missing)")
